@@ -49,8 +49,22 @@ class CFG:
         return [p for p in self.pred[self.exit] if not self.is_throw_block(p)]
 
     def cond(self, b):
+        """The expression whose value decides this block's branch.  For `if (a && b)` clang reports the whole
+        condition on the block that evaluates the last operand: descend to that operand."""
         c = self.blocks[b]["cond"]
-        return self.f.nodes.get(c) if c is not None else None
+        c = self.f.nodes.get(c) if c is not None else None
+        t = self.blocks[b]["term"]
+        while c is not None:
+            k = c["k"]
+            if k in ("ParenExpr", "ExprWithCleanups", "ImplicitCastExpr") and len(c["ch"]) == 1 and \
+                    c.get("ck") in (None, "NoOp", "LValueToRValue"):
+                c = c["ch"][0]
+                continue
+            if k == "BinaryOperator" and c.get("op") in ("&&", "||") and c["id"] != t:
+                c = c["ch"][1]
+                continue
+            break
+        return c
 
     def term(self, b):
         t = self.blocks[b]["term"]
